@@ -104,6 +104,7 @@ fn gen(seed: u64) -> Params {
 
 pub fn swarm() -> Swarm {
     Swarm {
+        alloc_modes: true,
         est_len: 600,
         max_steps: 200_000,
         ..Default::default()
